@@ -30,7 +30,8 @@ def conc_programs(thorough, rng):
         "explore rl=1 t0=rc:a:1;rc:a:1 t1=rc:b:1;rc:a:1 mode=dfs bound=2 max=%d" % mx,
     ]
     for _ in range(40 if thorough else 8):
-        ops = ["rc:a:1", "rc:a:2", "rc:b:2", "adv:500", "adv:1000", "rc:a:1"]
+        qa = rng.choice([1, 2])                      # one max_qps per tenant (the limiter keeps the first caller's capacity)
+        ops = ["rc:a:%d" % qa, "rc:a:%d" % qa, "rc:b:2", "adv:500", "adv:1000", "rc:a:%d" % qa]
         ts = [";".join(rng.choice(ops) for _ in range(rng.choice([1, 2, 3]))) for _ in range(3)]
         lines.append("explore rl=%s %s t0=%s t1=%s t2=%s mode=random seed=%d max=%d" % (
             rng.choice(["-", "2", "5"]), rng.choice(["", DRAIN5]), ts[0], ts[1], ts[2], rng.randrange(10 ** 6), 400 if thorough else 60))
